@@ -83,4 +83,62 @@ SingleTamperDetected(checkAlg) ==
   /\ \A f \in CaFields : ~CaVerify(CaTamper(f))
   /\ \A f \in AaFields : ~AaVerify(AaTamper(f), checkAlg)
 JointExceptionPasses == CamVerify(CamJoint, "p13")
+
+\* =========================================================================================================
+\* The pipeline as a state machine: live read -> export -> (tamper) -> offline verification.
+\*   live     which mechanisms left evidence in the live session (the reader runs CA only when neither AA nor
+\*            PACE-CAM completed) and the live passive-authentication verdict
+\*   tamper   "none", a field of one evidence record, the documented joint replacement, or a document file
+\*   offline  the verdict vector of Verifier.Verify on the (tampered) export
+\* Verdicts: "absent" (no evidence / no result), "ok", "failed".
+\* =========================================================================================================
+Mechs == {"aa", "cam", "ca"}
+LiveSets == {{}, {"aa"}, {"cam"}, {"ca"}, {"aa", "cam"}}
+FieldsOf(m) == CASE m = "aa" -> AaFields [] m = "cam" -> CamFields [] m = "ca" -> CaFields
+\* files with a verdict attached: every data group -> passive authentication (hash comparison); EF.SOD and
+\* EF.CardSecurity -> passive authentication (signature). A data group that carries the key of a mechanism is
+\* still judged by the hash comparison only (a change outside the key leaves the mechanism's evidence valid).
+Files == {"DG1", "DG2", "DG14", "DG15", "SOD", "CardSecurity"}
+Tampers(live) == {<< "none" >>} \cup {<< "field", m, f >> : m \in live, f \in UNION {FieldsOf(x) : x \in live}} \cup {<< "joint" >>} \cup {<< "file", x >> : x \in Files}
+TamperOK(live, t) == /\ (t[1] = "field" => t[3] \in FieldsOf(t[2]))
+                     /\ (t[1] = "joint" => "cam" \in live)
+                     /\ (t[1] = "file" /\ t[2] = "CardSecurity" => "cam" \in live)
+
+VARIABLES phase, live, livePa, tamper, offline
+evars == << phase, live, livePa, tamper, offline >>
+
+\* re-verification of mechanism m on the export, by the chains of checks above
+Reverify(m, t) ==
+  LET hit == t[1] = "field" /\ t[2] = m IN
+  CASE m = "aa"  -> IF hit THEN AaVerify(AaTamper(t[3]), TRUE) ELSE AaVerify(AaGenuine, TRUE)
+    [] m = "ca"  -> IF hit THEN CaVerify(CaTamper(t[3])) ELSE CaVerify(CaGenuine)
+    [] m = "cam" -> IF hit THEN CamVerify(CamTamper(t[3]), "p13") ELSE IF t[1] = "joint" THEN CamVerify(CamJoint, "p13") ELSE CamVerify(CamGenuine, "p13")
+
+EInit == /\ phase = "live" /\ live \in LiveSets /\ livePa \in {"ok", "failed"}
+         /\ tamper = << "none" >> /\ offline = [m \in Mechs \cup {"pa"} |-> "absent"]
+Export == /\ phase = "live" /\ phase' = "exported" /\ UNCHANGED << live, livePa, tamper, offline >>
+Tamper == /\ phase = "exported" /\ \E t \in Tampers(live) : TamperOK(live, t) /\ tamper' = t
+          /\ phase' = "tampered" /\ UNCHANGED << live, livePa, offline >>
+OfflineVerify ==
+  /\ phase = "tampered" /\ phase' = "verified"
+  /\ offline' = [x \in Mechs \cup {"pa"} |->
+        IF x = "pa" THEN (IF tamper[1] = "file" THEN "failed" ELSE livePa)
+        ELSE IF x \notin live THEN "absent"
+        ELSE IF Reverify(x, tamper) THEN "ok" ELSE "failed"]
+  /\ UNCHANGED << live, livePa, tamper >>
+ENext == Export \/ Tamper \/ OfflineVerify
+
+\* C14, first sentence: without tampering the offline verdicts are the live ones (live evidence is of successful runs)
+Reproduces == (phase = "verified" /\ tamper = << "none" >>) => /\ offline.pa = livePa
+                                                                /\ \A m \in Mechs : offline[m] = IF m \in live THEN "ok" ELSE "absent"
+\* second sentence: a changed field makes the verdict of ITS mechanism fail - and leaves every other verdict as it was
+FieldTamperDetected == (phase = "verified" /\ tamper[1] = "field") =>
+                          /\ offline[tamper[2]] = "failed"
+                          /\ offline.pa = livePa
+                          /\ \A m \in Mechs \ {tamper[2]} : offline[m] = IF m \in live THEN "ok" ELSE "absent"
+\* a changed file makes passive authentication fail
+FileTamperDetected == (phase = "verified" /\ tamper[1] = "file") => offline.pa = "failed"
+\* the documented exception, and nothing else, passes
+OnlyJointPasses == (phase = "verified" /\ tamper[1] \in {"field", "joint"} /\ "cam" \in live) =>
+                      (offline.cam = "ok" <=> (tamper[1] = "joint" \/ tamper[2] # "cam"))
 =============================================================================
